@@ -1,5 +1,6 @@
 import A5.Driver.Proto
 import A5.Driver.FloatOps
+import A5.Model.MemoFloat
 /-! `a5driver`: one request per line on stdin, one response per line on stdout. -/
 open A5 A5.Driver
 
@@ -14,10 +15,43 @@ def handle (line : String) : String :=
       | some r => r
       | none => "bad-op"
 
+/-- a dodeca call of a history: `dodeca_forward,t,p,o` / `dodeca_inverse,x,y,o` -/
+def parseDCall (s : String) : Option DCall :=
+  match s.splitOn "," with
+  | ["dodeca_forward", t, p, o] => do
+      let t ← parseF? t; let p ← parseF? p; let o ← o.toNat?; pure (.fwd t p o)
+  | ["dodeca_inverse", x, y, o] => do
+      let x ← parseF? x; let y ← parseF? y; let o ← o.toNat?; pure (.inv x y o)
+  | _ => none
+
+def showDRes : DRes → String
+  | .face v => showV2 v
+  | .sph t p => showFF (t, p)
+
+def showBits (l : List Bool) : String := String.ofList (l.map (fun b => if b then '1' else '0'))
+
+/-- `hist c1;c2;…` : the calls of one history, executed in order from a fresh (thread-local) state.
+Response: the responses joined by " ; ", then " | " and the predicted memo fill bitmap (only when
+every call is a projection call; otherwise "-"). -/
+def handleHist (arg : String) : String :=
+  let calls := arg.splitOn ";"
+  match calls.mapM parseDCall with
+  | some ds =>
+    let (res, (fb, sb, n)) := memoHistory ds
+    " ; ".intercalate (res.map (showOutcome showDRes)) ++ " | " ++ showBits fb ++ " " ++ showBits sb ++ s!" {n}"
+  | none =>
+    " ; ".intercalate (calls.map (fun c => handle (c.replace "," " "))) ++ " | -"
+
+def handleTop (line : String) : String :=
+  let t := line.trimAscii.toString
+  if t.startsWith "hist " then handleHist ((t.drop 5).trimAscii.toString)
+  else if t == "memo_sph_total" then (if memoSphTotalCheck then "ok 1" else "ok 0")
+  else handle t
+
 partial def loop (hin : IO.FS.Stream) (hout : IO.FS.Stream) : IO Unit := do
   let line ← hin.getLine
   if line.isEmpty then return ()
-  hout.putStrLn (handle line)
+  hout.putStrLn (handleTop line)
   loop hin hout
 
 def main : IO Unit := do
